@@ -159,6 +159,20 @@ def run(chk):
         if mism_direct:
             chk.violation('correspondence-direct', {'correspondence': 'Model.Rename.* vs RenameExt', 'cases': [dict(method=m, s=s, model=a, impl=b) for m, s, a, b in mism_direct[:10]]},
                           'model and implementation of RenameExt disagree', no_input=True)
+    # thorough tier: a sample re-evaluated INSIDE Coq (vm_compute) against what the extracted model answered
+    if chk.tier == 'thorough':
+        eqs = []
+        step = max(1, len(e2e) // 600)
+        for (p, r, s), a in list(zip(e2e, mres))[::step]:
+            om = outcome_of_model(sx_get(a, 'model'))
+            rule = 'None' if r is None else f'(Some {vf.coq_lit_str(r)})'
+            rhs = f'Ok {vf.coq_lit_str(om[1])}' if om[0] == 'ok' else None
+            if rhs:
+                eqs.append(f'rename_all_to_case uc_exec {vf.coq_lit_str(s)} {rule} = {rhs}')
+        fails = vf.coq_check_equalities('From TS Require Import Model.Str Model.Outcome Model.Unicode Model.Rename.', eqs)
+        chk.count('in_coq_reevaluated', len(eqs))
+        for f in fails:
+            chk.violation('extraction-crosscheck', {'correspondence': 'extracted OCaml model vs vm_compute inside Coq', 'detail': f[2]}, 'the extracted model disagrees with Coq\'s own evaluation', no_input=True)
     chk.count('e2e_cases', len(e2e))
     chk.count('direct_mismatches', len(mism_direct))
 
